@@ -21,21 +21,31 @@ type subTask interface {
 type subscriptions []Subscription
 
 func (s subscriptions) applyTo(d *subscriptions) {
-	*d = append(*d, s...)
+	for _, sub := range s {
+		replaced := false
+		for i := range *d {
+			if (*d)[i].Topic == sub.Topic {
+				(*d)[i] = sub
+				replaced = true
+				break
+			}
+		}
+		if !replaced {
+			*d = append(*d, sub)
+		}
+	}
 }
 
 type unsubscriptions []string
 
 func (s unsubscriptions) applyTo(d *subscriptions) {
-	l := len(*d)
 	for _, topic := range s {
-		for i, e := range *d {
-			if e.Topic == topic {
-				l--
-				(*d)[i] = (*d)[l]
-				break
+		kept := (*d)[:0]
+		for _, e := range *d {
+			if e.Topic != topic {
+				kept = append(kept, e)
 			}
 		}
+		*d = kept
 	}
-	*d = (*d)[:l]
 }
